@@ -264,7 +264,16 @@ impl Scenario for C15 {
             }
         } else if !converged {
             let (sid, _) = sim.nodes[s].tip();
-            if orphan_risk {
+            if !missing.is_empty() && sim.nodes[p].tip() == want {
+                // (the peer itself is intact: its own chain was not disturbed by blocks it fetched from the
+                // syncer, which is the orphan class again)
+                // judged before the orphan classification: a block that was never announced cannot have
+                // arrived "before its parent" by the schedule's doing - the peer skipped it
+                r.violate(
+                    "C15|needed-block-never-announced",
+                    format!("the peer never announced its blocks with ids {:?} (true fork point id {}); syncer at {}, peer at {}", missing, w.recs[*prefix.last().unwrap()].id, sid, want.0),
+                );
+            } else if orphan_risk {
                 r.violate(
                     "C15|child-fetched-before-parent|not-converged",
                     format!("fetch completions delivered a block before its parent; the syncer ends at id {} while the peer is at {}", sid, want.0),
@@ -282,6 +291,9 @@ impl Scenario for C15 {
             }
         } else {
             r.probe("converged");
+            if !missing.is_empty() {
+                r.probe("needed_block_never_announced_but_converged");
+            }
             let mut d = Digest::new();
             d.u64(plan.prefix as u64).u64(plan.x_suffix as u64).u64(plan.y_suffix as u64).u64(plan.dup_pm).u64(plan.fetch_fail_pm).u64(plan.in_order_fetch as u64).u64(plan.loading_completed as u64).u64(sim.schedule_digest.get());
             r.nontrivial.push(d.get());
